@@ -202,6 +202,7 @@ Lemma maximise_ran f maxev b local x0 g l o bf bx n seen s4 :
                 /\ (forall k, o = Limit k -> k = evals s3 /\ exists m, maxev = Some m /\ m <= k).
 Proof.
   unfold maximise.
+  destruct (half_bounds b); [intros E; inversion E|].
   destruct (bounded f maxev b init_st x0) as [s1 r] eqn:E0.
   destruct r; try (intros E; inversion E; fail).
   destruct (isfinite v) eqn:Hfin; cbn [negb]; [|intros E; inversion E].
@@ -223,12 +224,12 @@ Proof.
   { destruct o2.
     - destruct dl.
       + split; [eapply run_phase_inv; eauto | intros k ->; eapply run_phase_limit; eauto].
-      + inversion E3; subst; split; auto. intros k Hk; inversion Hk.
+      + inversion E3; subst; split; auto; intros k Hk; inversion Hk.
     - inversion E3; subst; split; auto.
     - inversion E3; subst; split; auto. }
   destruct H3 as [H3 L3].
   destruct (get_best s3) as [[[[s4' bf'] bx'] n']|] eqn:EG; intros E; inversion E; subst.
-  exists v0, s3. repeat split; auto.
+  exists v0, s3. split; [exact Fx|]. split; [exact H3|]. split; [exact EG|exact L3].
 Qed.
 
 Lemma get_best_some s s4 bf bx n :
@@ -303,10 +304,11 @@ Proof.
   destruct HI as [_ _ _ Hx0 _ Hev Hcap].
   assert (1 <= evals s3).
   { rewrite Hev. destruct (calls s3); [destruct Hx0|]. unfold zlen; simpl length; lia. }
-  rewrite HC. unfold zlen in *. simpl length. repeat split; try lia.
+  rewrite HC. unfold zlen in *. simpl length.
+  split; [lia|]. split; [lia|]. split.
   - intros m Hm. specialize (Hcap m Hm). lia.
-  - apply HL; auto.
-  - destruct (HL k H1) as [-> [m [Hm Hle]]]. specialize (Hcap m Hm). rewrite Hm. f_equal. lia.
+  - intros k Hk. destruct (HL k Hk) as [-> [m [Hm Hle]]]. specialize (Hcap m Hm).
+    split; [reflexivity|]. rewrite Hm. f_equal. lia.
 Qed.
 
 (** get_best is never called without a best point *)
@@ -314,6 +316,7 @@ Lemma never_broken_lemma f maxev b local x0 g l s :
   maximise f maxev b local x0 g l <> (Broken, s).
 Proof.
   unfold maximise.
+  destruct (half_bounds b); [intros E; inversion E|].
   destruct (bounded f maxev b init_st x0) as [s1 r] eqn:E0.
   destruct r; try (intros E; inversion E; fail).
   destruct (isfinite v) eqn:Hfin; cbn [negb]; [|intros E; inversion E].
@@ -355,8 +358,10 @@ Proof.
   intros Fx Hb Hm.
   destruct (maximise f maxev b local x0 g l) as [fin s] eqn:E.
   destruct fin; eauto 8; exfalso.
-  4: { eapply never_broken_lemma; eauto. }
-  all: revert E; unfold maximise; rewrite (bounded_init_valid _ _ _ _ _ Fx Hb Hm);
+  5: { eapply never_broken_lemma; eauto. }
+  all: assert (HB : half_bounds b = false)
+    by (destruct b as [|[lo|] [hi|]]; auto; discriminate Hb);
+    revert E; unfold maximise; rewrite HB, (bounded_init_valid _ _ _ _ _ Fx Hb Hm);
     cbn [isfinite negb];
     destruct (if match local with Some true => false | _ => true end
               then run_phase f maxev b _ g [] else _) as [[s2 o2] seen2];
